@@ -128,6 +128,12 @@ def run_recipe(ctx: Ctx, recipe: Dict[str, Any], cid: str) -> Case:
 
     probes = recipe.get("probes", PROBES)
     regs: Dict[int, Any] = {}
+    srcs: Dict[int, List[Any]] = {}
+
+    def keep(r, obj):
+        srcs.setdefault(r, []).append((obj, list(obj.items())))
+        return obj
+
     lines = [f"probe {','.join(probes)}"]
     tags = set()
     folded_seen: Dict[str, set] = {}
@@ -153,6 +159,18 @@ def run_recipe(ctx: Ctx, recipe: Dict[str, Any], cid: str) -> Case:
                         continue
                     line = f"new {r} ci {arg}"
                     regs[r] = CaseInsensitiveDict(regs[arg])
+                elif form == "cikw":
+                    # CaseInsensitiveDict(other_map, **kwargs): by the constructor's contract the same as
+                    # the plain mapping {**other_map, **kwargs} (the entries of other_map, as just observed
+                    # and judged, then the keyword arguments)
+                    a, kw = arg
+                    if a not in regs:
+                        continue
+                    kwd = dict(tuple(p) for p in kw)
+                    touch(kwd)
+                    eff = {**dict(regs[a].items()), **kwd}
+                    line = f"new {r} dict {fmt_pairs(eff.items())}"
+                    regs[r] = CaseInsensitiveDict(regs[a], **kwd)
                 else:
                     pairs = [tuple(p) for p in arg]
                     touch(k for k, _ in pairs)
@@ -167,15 +185,15 @@ def run_recipe(ctx: Ctx, recipe: Dict[str, Any], cid: str) -> Case:
                     }[form]()
                     line = f"new {r} dict {fmt_pairs(eff.items())}"
                     if form == "dict":
-                        regs[r] = CaseInsensitiveDict(dict(pairs))
+                        regs[r] = CaseInsensitiveDict(keep(r, dict(pairs)))
                     elif form == "kwargs":
                         regs[r] = CaseInsensitiveDict(**dict(pairs))
                     elif form == "mixed":
-                        regs[r] = CaseInsensitiveDict(dict(pairs[:h]), **dict(pairs[h:]))
+                        regs[r] = CaseInsensitiveDict(keep(r, dict(pairs[:h])), **dict(pairs[h:]))
                     elif form == "lowerstr":
-                        regs[r] = CaseInsensitiveDict({lowerstr(k.lower()): v for k, v in pairs})
+                        regs[r] = CaseInsensitiveDict(keep(r, {lowerstr(k.lower()): v for k, v in pairs}))
                     else:
-                        regs[r] = CaseInsensitiveDict(md)
+                        regs[r] = CaseInsensitiveDict(keep(r, md))
                 tags.add(f"ctor:{form}")
             elif name == "set":
                 _, r, k, v = op
@@ -215,7 +233,7 @@ def run_recipe(ctx: Ctx, recipe: Dict[str, Any], cid: str) -> Case:
                 pairs = [(k.lower(), v) for k, v in arg]
                 touch(k for k, _ in pairs)
                 line = f"combl {r} {a} {fmt_pairs(dict(pairs).items())}"
-                regs[r] = regs[a].combine_lower_dict({lowerstr(k): v for k, v in pairs})
+                regs[r] = regs[a].combine_lower_dict(keep(r, {lowerstr(k): v for k, v in pairs}))
             elif name == "repl":
                 _, r, arg = op
                 if r not in regs:
@@ -223,7 +241,7 @@ def run_recipe(ctx: Ctx, recipe: Dict[str, Any], cid: str) -> Case:
                 pairs = [tuple(p) for p in arg]
                 touch(k for k, _ in pairs)
                 line = f"repl {r} {fmt_pairs(dict(pairs).items())}"
-                regs[r].replace(dict(pairs))
+                regs[r].replace(keep(r, dict(pairs)))
             elif name == "replci":
                 _, r, a = op
                 if r not in regs or a not in regs:
@@ -257,13 +275,35 @@ def run_recipe(ctx: Ctx, recipe: Dict[str, Any], cid: str) -> Case:
                 pairs = [tuple(p) for p in arg]
                 touch(k for k, _ in pairs)
                 line = f"update {r} {fmt_pairs(dict(pairs).items())}"
-                regs[r].update(dict(pairs))
+                regs[r].update(keep(r, dict(pairs)))
             elif name == "clear":
                 _, r = op
                 if r not in regs:
                     continue
                 line = f"clear {r}"
                 regs[r].clear()
+            elif name == "srcchk":
+                # the plain mappings handed to constructors / replace / update / combine_lower_dict so far
+                # are the caller's: no operation on a header map may have written to them
+                line = "src"
+                res = "same" if all(list(o.items()) == snap for lst_ in srcs.values() for o, snap in lst_) else "changed"
+            elif name == "srcset":
+                # the caller goes on using its mapping: no header map built from it may notice
+                _, r, k, v = op
+                if not srcs.get(r):
+                    continue
+                line = "nop"
+                o, _snap = srcs[r][-1]
+                o[lowerstr(k.lower()) if any(type(x) is lowerstr for x in o) else k] = v
+                srcs[r][-1] = (o, list(o.items()))
+            elif name == "srcclear":
+                _, r = op
+                if not srcs.get(r):
+                    continue
+                line = "nop"
+                o, _snap = srcs[r][-1]
+                o.clear()
+                srcs[r][-1] = (o, [])
             elif name == "ne":
                 _, a, b = op
                 if a not in regs or b not in regs:
@@ -289,6 +329,8 @@ def run_recipe(ctx: Ctx, recipe: Dict[str, Any], cid: str) -> Case:
             res = "KeyError"
         except Exception as e:  # noqa: BLE001 - anything else is reported as an observation
             res = f"EXC:{type(e).__name__}"
+        if line is None:  # the operation failed before it could be described: its result token is judged against "ok"
+            line = "nop"
         tags.add(f"op:{name}")
         if res != "ok":
             tags.add(f"res:{res}")
@@ -320,6 +362,7 @@ EXH_OPS = [
     ["repl", 0, [["KEY", 7], ["Key", 8], ["x", 1]]], ["replci", 0, 1], ["new", 3, "ci", 0],
     ["eq", 0, 1], ["eqd", 0, [["KEY", 1], ["OTHER", 3]]],
     ["pop", 0, "KEY"], ["popitem", 0], ["setdefault", 0, "kEY", 7], ["update", 0, [["OTHER", 8], ["Key", 9]]], ["clear", 1], ["ne", 0, 1],
+    ["srcset", 0, "kEy", 6], ["srcchk"], ["new", 2, "cikw", [0, [["KEY", 5], ["zz", 6]]]],
 ]
 
 
@@ -336,7 +379,13 @@ def rand_op(rng):
     a = rng.randrange(0, 4)
     b = rng.randrange(0, 4)
     k = rng.choice(KEYS + ["zz"])
-    c = rng.randrange(0, 21)
+    c = rng.randrange(0, 25)
+    if c == 21:
+        return ["srcchk"]
+    if c == 22:
+        return rng.choice([["srcset", r, k, rand_val(rng)], ["srcset", r, k, rand_val(rng)], ["srcclear", r]])
+    if c in (23, 24):
+        return ["new", r, "cikw", [a, rand_pairs(rng, rng.randrange(0, 4))]]
     if c < 4:
         return ["set", r, k, rand_val(rng)]
     if c < 6:
@@ -428,6 +477,10 @@ CORPUS = [
     {"ops": [["new", 0, "dict", [["Key", None]]], ["new", 1, "dict", [["other", 1]]], ["eq", 0, 1], ["eq", 1, 0], ["ne", 0, 1], ["eqd", 0, [["other", 1]]], ["eqd", 1, [["Key", None]]]]},  # a stored None is not an absent name (seeded C16-m14)
     {"ops": [["new", 0, "dict", [["a", 1]]], ["new", 1, "dict", [["b", 2]]], ["replci", 0, 1], ["set", 1, "New", 3], ["del", 0, "b"], ["set", 0, "B", 4]]},  # sharing after replace(other)
     {"ops": [["new", 0, "dict", [["a", 1]]], ["new", 1, "dict", [["b", 2]]], ["replci", 0, 1], ["repl", 1, [["c", 5]]], ["set", 0, "x", 1]]},  # sharing ends when the other is rebound
+    # the caller's mapping stays the caller's: writes through the map do not reach it, later writes to it do not reach the map
+    {"ops": [["new", 0, "dict", [["Key", 1]]], ["set", 0, "KEY", 2], ["srcchk"], ["srcset", 0, "other", 3], ["srcclear", 0], ["repl", 0, [["a", 1]]], ["set", 0, "A", 2], ["srcchk"], ["srcset", 0, "b", 1], ["update", 0, [["c", 1]]], ["del", 0, "C"], ["srcchk"]]},
+    # another header map plus keyword arguments that respell one of its names
+    {"ops": [["new", 0, "dict", [["Key", 1], ["other", 2]]], ["new", 1, "cikw", [0, [["KEY", 5]]]], ["new", 2, "cikw", [0, []]], ["set", 1, "OTHER", 3]]},
     {"ops": [["new", 0, "dict", [["Key", 1], ["KEY", 2]]]]},                       # F16a
     {"ops": [["new", 0, "kwargs", [["Key", 1], ["KEY", 2]]]]},                     # F16a (kwargs)
     {"ops": [["new", 0, "dict", [["Key", 1]]], ["new", 1, "dict", [["KEY", 2]]], ["combine", 2, 0, 1]]},  # F16a (combine)
